@@ -296,6 +296,39 @@ COL_TEXT = {'coherent': 'the method is evaluated on incoherent data: a criterion
                         '(or an alternative lacks a value), so what is reported is not the aggregate over the criteria the alternative is evaluated on'}
 
 
+def service_crosscheck(ctx, reqs, limit):
+    """the property is stated for the service: the requests of this check are also sent, one after the other, to ONE running HTTP service
+    and every answer is compared with the library's answer to a freshly decoded copy of the same request - what the handler keeps between
+    requests (pooled request objects, shared maps, reordered registries, cached generators) shows as a difference"""
+    if ctx.replay and 'service_history' not in ctx.replay:
+        return
+    seq = list(ctx.replay['service_history']) * 5 if ctx.replay else list(reqs[:limit])
+    if not seq:
+        return
+    srv = Server(ctx.binary)
+    hist = []
+    try:
+        for req in seq:
+            hist.append(req)
+            st, out = srv.post(json.dumps(req).encode())
+            lib = ctx.pipe.call({'op': 'decide', 'req': req})
+            ctx.count('service-vs-library')
+            try:
+                sj = json.loads(out) if st == 200 else None
+            except Exception:
+                sj = 'not JSON'
+            same = (st == 200 and lib.get('ok') and sj == lib.get('resp')) or (st == 400 and not lib.get('ok'))
+            if not same:
+                ctx.violation('the service answers a request differently from the library on the same request (after the requests served before it)',
+                              {'request': req, 'service_history': hist[-8:], 'service': [st, (out or b'').decode('utf8', 'replace')[:3000]],
+                               'library': lib.get('resp') or lib.get('err')}, {'method': req.get('preferenceFunction')})
+                break
+            if not srv.alive():
+                break
+    finally:
+        srv.close()
+
+
 def method_check(ctx, col, gens, n_quick, n_thorough, rule, agree_col='agree', agree_scope=None,
                  finding_facts=None, code2_finding=None, excuse=None, search_gens=None, also_cols=(), extra_corr=None, spec_determines=None,
                  skip_checker=None):
@@ -394,6 +427,7 @@ def method_check(ctx, col, gens, n_quick, n_thorough, rule, agree_col='agree', a
                        'response': res.get('resp') or res.get('err'), 'model': model[:6000]}, found_input=False)
     elif broken:
         ctx.notes.append('correspondence also broken on %d cases' % len(broken))
+    service_crosscheck(ctx, reqs, n_cases(ctx, 80, 1200))
     if getattr(ctx, 'before_finish', None) and not ctx.replay:
         ctx.before_finish(ctx)
     return ctx.finish(rule, './check %s' % pid)
@@ -901,6 +935,7 @@ def stage_check(ctx, col, names, gens, n_quick, n_thorough, rule, extra=None, ag
                        'report': info['stage'].get('props')}, found_input=False)
     elif broken:
         ctx.notes.append('stage correspondence also broken on %d stages' % len(broken))
+    service_crosscheck(ctx, reqs, n_cases(ctx, 80, 1200))
     return infos, verd, reqs, ress
 
 
@@ -1704,6 +1739,9 @@ def c14(ctx):
                 if sr.get('kind') not in (None, 'panic', 'marshal') and not sr.get('ok'):
                     ctx.violation('a heuristic request whose level series cannot advance is not answered', {'request': sq, 'answer': sr}, {'method': m})
         hres, hverd, hlogs = e2e.run_all(ctx.pipe, hreqs, 'C14h')
+        # declared ranges next to undeclared ones at the same criterion position, through the one running service
+        service_crosscheck(ctx, [gen.heuristic_request(rnd, rnd.choice(['aspectEliminationHeuristic', 'satisfactionHeuristic'])) if i % 2 else q
+                                 for i, q in enumerate(hreqs)], n_cases(ctx, 80, 1200))
         for req, res, v in zip(hreqs, hres, hverd):
             ctx.evaluations += 1
             ctx.count('heuristic/' + req['preferenceFunction'])
@@ -2131,6 +2169,11 @@ def c10(ctx):
                 base = [gen.add_biases(rnd, r, prob_mix=False) if rnd.random() < 0.3 else r for r in base]
             else:
                 base = [rnd.choice([gen.any_request, gen.biased_request])(rnd) for _ in range(1 if kind == 'identical' else rnd.randint(2, 5))]
+            for r in base:
+                # whether a bias fires is drawn per request: fractional probabilities make a draw taken from another request's stream visible
+                for b in r.get('biases') or []:
+                    if isinstance(b, dict) and rnd.random() < 0.6:
+                        b['applyProbability'] = rnd.choice([0.5, 0.25, 0.75, round(rnd.random(), 3)])
             if kind == 'mixed-invalid':
                 bad = json.loads(json.dumps(base[0]))
                 bad['choseToMake'] = bad['choseToMake'] + ['no-such-alternative']
@@ -2180,6 +2223,41 @@ def c10(ctx):
                         ctx.violation('a request answered concurrently differs from the same request answered alone',
                                       {'batch': batch, 'request': r, 'alone': want.get('resp') or want.get('err'),
                                        'concurrent': got.get('resp') or got.get('err')}, {'method': r.get('preferenceFunction')})
+            # the same batch through the HTTP service: the handlers run on their own goroutines against the one set of registries and
+            # whatever main.go shares between requests (generators, pools, templates)
+            if hung < 2 and (bi % 3 == 0 or not ctx.quick):
+                from concurrent.futures import ThreadPoolExecutor
+                hs = Server(ctx.binary)
+                try:
+                    bodies = [json.dumps(r).encode() for r in batch]
+                    for rep in range(3):
+                        with ThreadPoolExecutor(max_workers=len(bodies)) as ex:
+                            answers = list(ex.map(lambda b: hs.post(b, timeout=60), bodies))
+                        ctx.evaluations += 1
+                        ctx.count('batch/http/%s/k=%d' % (kind, k))
+                        bad = None
+                        for r, (st, out) in zip(batch, answers):
+                            want = seq[json.dumps(r, sort_keys=True)]
+                            try:
+                                sj = json.loads(out) if st == 200 else None
+                            except Exception:
+                                sj = 'not JSON'
+                            same = (st == 200 and want.get('ok') and sj == want.get('resp')) or (st == 400 and not want.get('ok'))
+                            if not same:
+                                bad = (r, st, out, want)
+                                break
+                        if not hs.alive() or any(st is None for st, _ in answers):
+                            ctx.violation('the service died or stopped answering while serving concurrent requests', {'batch': batch}, {})
+                            hung += 1
+                            break
+                        if bad:
+                            r, st, out, want = bad
+                            ctx.violation('a request answered by the service next to concurrent requests differs from the same request answered alone',
+                                          {'batch': batch, 'request': r, 'alone': want.get('resp') or want.get('err'),
+                                           'concurrent': [st, (out or b'').decode('utf8', 'replace')[:3000]]}, {'method': r.get('preferenceFunction')})
+                            break
+                finally:
+                    hs.close()
             if bi < 2:
                 ctx.sample({'batch_kind': kind, 'k': k, 'requests': batch[:2]})
     finally:
@@ -2319,6 +2397,7 @@ def invalid_variants(rnd, req, mistyped=True):
         with_bias('anchoring applier parameter mistyped', anch(applier={'function': 'newCriterion', 'params': {'randomSeed': 'seven'}}))
         with_bias('fatigue parameter mistyped', {'name': 'fatigue', 'props': {'function': 'const', 'params': {'value': 'tired'}}})
         with_bias('omission ratio mistyped', {'name': 'criteriaOmission', 'props': {'ratio': 'half'}})
+    with_bias('unknown reference criterion type in the anchoring applier', anch(applier={'function': 'newCriterion', 'params': {'referenceCriterionType': 'noSuchType', 'randomSeed': 3}}))
     with_bias('anchoring unknown function', {'name': 'anchoring', 'props': {'anchoringAlternatives': [{'alternative': req['knownAlternatives'][0]['id'], 'coefficient': 1}],
               'loss': {'function': 'noSuchFunction', 'params': {}}, 'gain': {'function': 'linear', 'params': {'a': 1, 'b': 0}},
               'referencePoints': {'function': 'ideal'}, 'applier': {'function': 'inline', 'params': {}}}})
@@ -2400,6 +2479,11 @@ def c20(ctx):
     TIMEOUT = 15
 
     hung = [0]
+    recent = []
+    # a replay carries the requests that were served before the failing one (what they left behind may be what fails it)
+    for hb in (ctx.replay or {}).get('history_before') or []:
+        srv.post(hb.encode('utf8', 'replace'), timeout=TIMEOUT)
+        recent.append(hb)
 
     def shot(body, what, expect=None, req=None):
         """one POST; the process must answer within the timeout and stay alive"""
@@ -2407,7 +2491,11 @@ def c20(ctx):
         st, out = srv.post(body, timeout=TIMEOUT)
         ctx.evaluations += 1
         ctx.count('status/%s' % st)
-        payload = {'body': body.decode('utf8', 'replace')[:6000], 'status': st, 'answer': out.decode('utf8', 'replace')[:1500], 'what': what}
+        payload = {'body': body.decode('utf8', 'replace')[:6000], 'status': st, 'answer': out.decode('utf8', 'replace')[:1500], 'what': what,
+                   'history_before': list(recent)}
+        if len(body) <= 6000:
+            recent.append(body.decode('utf8', 'replace'))
+            del recent[:-40]
         if req is not None:
             payload['request'] = req
         if not srv.alive():
@@ -2456,18 +2544,31 @@ def c20(ctx):
             if i % 3 == 2:
                 # a method whose listener extends its parameters for an added criterion (Choquet over-weighted): answered again below
                 req = gen.biased_request(rnd, method=rnd.choice(['choquetIntegral', 'choquetIntegral', 'choquetIntegral', 'electreIII', 'owa']),
-                                         names=[rnd.choice(['criteriaConcealment', 'criteriaMixing', 'criteriaConcealment'])], prob_mix=False)
+                                         names=[rnd.choice(['criteriaConcealment', 'criteriaMixing', 'criteriaConcealment', 'anchoring'])], prob_mix=False)
+                for b in req['biases']:
+                    if b['name'] == 'anchoring':   # the new-criterion applier relying on the defaults of all its optional parameters
+                        b['props']['applier'] = {'function': 'newCriterion', 'params': {}}
             if ctx.replay and 'request' in ctx.replay:
                 req = ctx.replay['request']
             m = req['preferenceFunction']
             if all(b.get('applyProbability', 1) == 1 for b in req.get('biases') or []):
                 pass
-            st, j = shot(json.dumps(req).encode(), 'valid request', None, req)
+            fp = core.Pipe(ctx.binary)
+            alone = fp.call({'op': 'decide', 'req': req})
+            fp.close()
+            st, j = shot(json.dumps(req).encode(), 'valid request', (200 if alone.get('ok') else 400) if alone.get('kind') not in ('crash', 'timeout') else None, req)
+            if st == 200 and alone.get('ok') and j != alone.get('resp'):
+                ctx.violation('a request is answered differently by the service that served other requests before and by a process that served nothing else',
+                              {'request': req, 'service': j, 'alone': alone.get('resp')}, {'what': 'valid after history'})
             ctx.signatures.add(('valid', m, st))
             ctx.sample({'valid_request': req, 'status': st}, limit=1)
             inv = invalid_variants(rnd, req)
             chosen = inv if not ctx.quick else rnd.sample(inv, min(len(inv), 14))
             chosen = chosen + [x for x in inv if x[0].startswith('electre ') and x not in chosen]
+            # always: the rejected variants that use a bias the valid request uses (what a rejected bias configuration leaves behind would
+            # show when the valid request is served again below)
+            used = {b.get('name') for b in (req.get('biases') or []) if isinstance(b, dict)}
+            chosen = chosen + [x for x in inv if x not in chosen and any(isinstance(b, dict) and b.get('name') in used for b in (x[1].get('biases') or []))]
             for name, r in chosen:
                 st2, j2 = shot(json.dumps(r).encode(), name, 400, r)
                 ctx.signatures.add(('invalid', name, m, st2))
@@ -2493,6 +2594,36 @@ def c20(ctx):
             for b in (hb if not ctx.quick else rnd.sample(hb, min(len(hb), 16))):
                 st3, _ = shot(b, 'hostile body')
                 ctx.signatures.add(('hostile', hash(b[:40]) % 1000, st3))
+            if not srv.alive():
+                srv.close()
+                srv = Server(ctx.binary, mem_kb=3 * 1024 * 1024)
+        # a rejected bias configuration must leave nothing behind: a request relying on the defaults of a bias, the rejected variants that
+        # use the same bias (unknown names, mistyped and out-of-range parameters), and the first request again after each of them
+        for bn in (['anchoring', 'criteriaConcealment', 'criteriaMixing', 'fatigue', 'criteriaOmission', 'preferenceReversal'] if not ctx.replay else []):
+            req = defaults_request(rnd, first=bn if bn != 'anchoring' else 'fatigue')
+            if bn == 'anchoring':
+                ab = gen.gen_bias(rnd, 'anchoring', req, len(req['criteria']))
+                ab['props']['applier'] = {'function': 'newCriterion', 'params': {}}
+                req['biases'] = [ab]
+            else:
+                req['biases'] = [b for b in req['biases'] if b['name'] == bn][:1]
+            # the verdict a process that has served nothing else gives: what earlier requests of this run left behind must not change it
+            fp = core.Pipe(ctx.binary)
+            alone = fp.call({'op': 'decide', 'req': req})
+            fp.close()
+            st, j = shot(json.dumps(req).encode(), 'valid request relying on the defaults of %s' % bn, 200 if alone.get('ok') else 400, req)
+            if st == 200 and alone.get('ok') and j != alone.get('resp'):
+                ctx.violation('a request is answered differently by the service that served other requests before and by a process that served nothing else',
+                              {'request': req, 'service': j, 'alone': alone.get('resp')}, {'what': 'valid after history'})
+            ctx.count('sequence/defaults-after-rejected/' + bn)
+            for name, r in invalid_variants(rnd, req):
+                if not any(isinstance(b, dict) and b.get('name') == bn for b in (r.get('biases') or [])):
+                    continue
+                shot(json.dumps(r).encode(), name, 400, r)
+                st8, j8 = shot(json.dumps(req).encode(), 'the defaults-only request again after a rejected %s configuration (%s)' % (bn, name), st, req)
+                if st == 200 and st8 == 200 and j8 != j:
+                    ctx.violation('a valid request is answered differently after a rejected request with the same bias was served',
+                                  {'request': req, 'first': j, 'again': j8, 'served_in_between': r}, {'what': 'valid again'})
             if not srv.alive():
                 srv.close()
                 srv = Server(ctx.binary, mem_kb=3 * 1024 * 1024)
